@@ -280,6 +280,9 @@ func c08Addr(i int) common.Address {
 }
 
 func c08MakeWorkload(seed int64, idx int, H int) *c08Workload {
+	if idx >= 300 {
+		return c08MakeStepWorkload(seed, idx, H)
+	}
 	if idx >= 200 {
 		return c08MakeRewindWorkload(seed, idx, H)
 	}
@@ -759,14 +762,24 @@ type c08CtxProto struct {
 }
 
 func c08InotifyRun(dir string, f func()) []string {
+	return c08InotifyRunDirs([]string{dir}, []string{""}, f)
+}
+
+// c08InotifyRunDirs watches several directories with ONE inotify instance: the events of all watches arrive in one
+// queue, in the order in which they happened; names are prefixed per directory.
+func c08InotifyRunDirs(dirs []string, prefixes []string, f func()) []string {
 	fd, err := syscall.InotifyInit()
 	if err != nil {
 		panic("inotify: " + err.Error())
 	}
 	defer syscall.Close(fd)
-	_, err = syscall.InotifyAddWatch(fd, dir, syscall.IN_CREATE|syscall.IN_MODIFY|syscall.IN_MOVED_FROM|syscall.IN_MOVED_TO|syscall.IN_CLOSE_WRITE|syscall.IN_DELETE)
-	if err != nil {
-		panic("inotify watch: " + err.Error())
+	wdPrefix := map[int32]string{}
+	for i, dir := range dirs {
+		wd, err := syscall.InotifyAddWatch(fd, dir, syscall.IN_CREATE|syscall.IN_MODIFY|syscall.IN_MOVED_FROM|syscall.IN_MOVED_TO|syscall.IN_CLOSE_WRITE|syscall.IN_DELETE)
+		if err != nil {
+			panic("inotify watch: " + err.Error())
+		}
+		wdPrefix[int32(wd)] = prefixes[i]
 	}
 	f()
 	syscall.SetNonblock(fd, true)
@@ -780,7 +793,7 @@ func c08InotifyRun(dir string, f func()) []string {
 		for off := 0; off+syscall.SizeofInotifyEvent <= n; {
 			mask := binary.LittleEndian.Uint32(buf[off+4:])
 			nameLen := int(binary.LittleEndian.Uint32(buf[off+12:]))
-			name := strings.TrimRight(string(buf[off+syscall.SizeofInotifyEvent:off+syscall.SizeofInotifyEvent+nameLen]), "\x00")
+			name := wdPrefix[int32(binary.LittleEndian.Uint32(buf[off:]))] + strings.TrimRight(string(buf[off+syscall.SizeofInotifyEvent:off+syscall.SizeofInotifyEvent+nameLen]), "\x00")
 			off += syscall.SizeofInotifyEvent + nameLen
 			for _, m := range []struct {
 				bit uint32
@@ -1225,6 +1238,7 @@ func c08Oracles(c *Ctx, base string) {
 	c08Guard(c, "chain-oracle", func() { c08ChainOracle(c, base) })
 	c08Guard(c, "lag-oracle", func() { c08LagOracle(c, base) })
 	c08Guard(c, "rewind-oracle", func() { c08RewindOracle(c, base) })
+	c08Guard(c, "step-oracle", func() { c08StepOracle(c, base) })
 }
 
 var _ = hex.EncodeToString
